@@ -202,3 +202,19 @@ Example frame_example :
   sub_sp f = 392 /\ save_list f = [(3, -384); (12, -376); (13, -368); (14, -360); (15, -352)]
   /\ slot_offset f false 0 = -184 /\ slot_offset f false 19 = -336.
 Proof. repeat split; reflexivity. Qed.
+
+(* ---------------------------------------------------------------- the interpreter entry shim *)
+Lemma shim_frame E nres : E mod 16 = 8 -> 0 <= nres ->
+  (shim_rsp_at_call E nres) mod 16 = 0
+  /\ shim_rsp_at_ret E nres = E
+  /\ shim_overflow_arg_area E = E + 8                               (* the caller's first stack argument *)
+  /\ (forall n, 0 <= n < 6 -> shim_pushed_gpr E n = shim_reg_save_area E + 8 * n)      (* psABI save-area layout *)
+  /\ (forall n, 0 <= n < 8 -> shim_xmm_area E + 16 * n = shim_reg_save_area E + 48 + 16 * n)
+  /\ shim_results_addr E nres + 16 * nres <= shim_va_list_addr E      (* results array below the va_list *)
+  /\ shim_va_list_addr E + 24 <= shim_reg_save_area E.                 (* va_list below the save area *)
+Proof.
+  intros HE Hn.
+  unfold shim_rsp_at_call, shim_rsp_at_ret, shim_overflow_arg_area, shim_pushed_gpr, shim_reg_save_area,
+    shim_results_addr, shim_rsp_at_call, shim_va_list_addr, shim_gpr_area, shim_xmm_area, shim_after_push_rbx.
+  repeat split; intros; lia.
+Qed.
